@@ -76,8 +76,25 @@ func cmdFsSeq(args []string) error {
 		}
 		d := fsx.NewDict()
 		var done []string
+		// every second sequence with the model's names instantiated as string-prefix-related names
+		ren := func(p []string) []string { return p }
+		if idx%2 == 0 {
+			ren = func(p []string) []string {
+				if p == nil {
+					return nil
+				}
+				out := make([]string, len(p))
+				for i, x := range p {
+					out[i] = x
+					if y, ok := fsx.PrefixNames[x]; ok {
+						out[i] = y
+					}
+				}
+				return out
+			}
+		}
 		for i, h := range c.Hist {
-			op := fsx.Op{Name: h.Op.Name, Sp: h.Op.P, Sq: h.Op.Q, D: h.Op.D}
+			op := fsx.Op{Name: h.Op.Name, Sp: ren(h.Op.P), Sq: ren(h.Op.Q), D: h.Op.D}
 			done = append(done, op.String())
 			res := fsx.Exec(b.FS, op, d, nil)
 			if res.Key() != fsx.Res(h.Res).Key() {
@@ -85,6 +102,10 @@ func cmdFsSeq(args []string) error {
 				break
 			}
 			want, _ := fsx.ParseTreeJSON(h.Tree)
+			for wi := range want {
+				want[wi].P = ren(want[wi].P)
+			}
+			fsx.SortTree(want)
 			got, err := b.Project(d)
 			if err != nil {
 				fail("seq-projection", strings.Join(done, " ; "), kind, err.Error())
